@@ -463,6 +463,29 @@ fn mech_narrow(tbl: &Tbl, op: &str, a: usize, b: usize) -> Option<&'static str> 
             }
         }
     }
+    // (vi) the partial-vs-partial arm of intersect_pair (02d463a) copies the fields only ONE operand has
+    // into the result; when that operand is a VARIANT taken out of its union, a `Cycle` in such a field
+    // loses its union boundary and re-binds to the new partial type
+    if op == "intersect" {
+        let part_variants = |root: usize| -> Vec<Vec<(String, usize)>> {
+            if !matches!(tbl.types.get(root), Some(Type::Union(_))) {
+                return vec![];
+            }
+            variants_of(tbl, root).iter().filter_map(|i| match tbl.types.get(*i) { Some(Type::Partial { fields, .. }) => Some(fields.clone()), _ => None }).collect()
+        };
+        let all_parts = |r: &BTreeSet<usize>| -> Vec<Vec<(String, usize)>> {
+            r.iter().filter_map(|i| match tbl.types.get(*i) { Some(Type::Partial { fields, .. }) => Some(fields.clone()), _ => None }).collect()
+        };
+        for (mine, other) in [(part_variants(a), all_parts(&rb)), (part_variants(b), all_parts(&ra))] {
+            for f1 in &mine {
+                for f2 in &other {
+                    if f1.iter().any(|(l, t)| !f2.iter().any(|(l2, _)| l2 == l) && reach_has_cycle(tbl, &[*t])) {
+                        return Some("narrow=partial-intersection-copies-back-reference-out-of-its-union");
+                    }
+                }
+            }
+        }
+    }
     // (v) the same through the partial-vs-partial arm of intersect_pair (notes/C02-fixes/15): a field both
     // partial types name is intersected field-wise, which rebuilds a cyclic field union
     if op == "intersect" {
@@ -1219,6 +1242,10 @@ fn run_corpus(ev: &mut Ev, model: &mut TModel, srv: &mut ImplServer) {
             if op == "intersect" || op == "complement" {
                 // narrowing regression: the result, rendered canonically, must be the expected term
                 let want = c["expect_canon"].as_str().unwrap_or("");
+                // an entry of an OPEN narrowing defect names the WRONG result the code gives
+                // (`expect_not_canon`): the implementation giving it is reported under the (known)
+                // signature, and the model — a model of the code — must give it too
+                let bad = c["expect_not_canon"].as_str();
                 ev.case(&(f.to_string_lossy().to_string(), op, a, b), true);
                 ev.hit("corpus-check");
                 let render = |l: &str| -> Option<String> {
@@ -1234,14 +1261,14 @@ fn run_corpus(ev: &mut Ev, model: &mut TModel, srv: &mut ImplServer) {
                     Ok(l) => render(&l).unwrap_or(l),
                     Err(d) => d.text().to_string(),
                 };
-                if got != want {
+                if bad.map(|x| got == x).unwrap_or(got != want) {
                     report(ev, c["signature"].as_str().unwrap_or("corpus"),
                         &format!("{}: {op}({}, {}) = {got}, expected {want}; {}", j["name"].as_str().unwrap_or(""), tbl.show(a), tbl.show(b), c["why"].as_str().unwrap_or("")),
                         json!({"corpus": f.to_string_lossy(), "table": j["table"], "names": j["names"], "op": op, "a": a, "b": b, "impl": got, "witness": c["witness"]}), true);
                 }
                 let m = ask(model, &format!("({op} {a} {b})"));
                 let mgot = render(&m).unwrap_or(m);
-                if mgot != want {
+                if bad.map(|x| mgot != x).unwrap_or(mgot != want) {
                     report(ev, &format!("corr=corpus {op}"), &format!("{}: model answers {mgot} on {op}({a}, {b}), expected {want}", j["name"].as_str().unwrap_or("")),
                         json!({"broken": "model no longer reproduces the regression corpus", "corpus": f.to_string_lossy()}), false);
                 }
